@@ -14,6 +14,7 @@ from ..monomial import Denoter, Mono
 from ..report import Report, REFUTED
 from ..setalg import SetAlg
 from ..symeval import Evaluator, dnf_paths
+from ..terms import is_term as is_term
 from ..terms import Term, const, show, subterms, var
 from .common import construct, exc_name, loc, return_paths, short, typed
 from .dslcommon import DSL, DSL_PRIMS, EXPR, classes_consistent, concrete_expression_classes, kind_of, mentions
@@ -183,6 +184,9 @@ def _check_probability_branch(rep, canon, cons, e, v, p):
                     problems.append(f"{fld} missing")
                     continue
                 core = sa.strip(t)
+                if core != src and t in (("tuplelit", ()), ("listlit", ())) and any(
+                        c_[0] == "not" and is_term(c_[1]) and c_[1][0] in ("truth", "nonempty") and c_[1][1] in (src, ("attr", e, fld)) for c_ in p.conds):
+                    continue  # the empty sequence IS the input's (empty) collection on a path that tested it to be empty
                 if core != src:
                     problems.append(f"`{fld}` of the result is not a permutation of the input's {fld}: {short(show(t), 100)}")
                 if mentions(t, other):
